@@ -401,6 +401,7 @@ impl Compressor {
     }
     pub(crate) fn run(&mut self) -> Result<(), MonorailError> {
         std::thread::scope(|s| {
+            let mut handles = vec![];
             for x in 0..self.num_threads {
                 let regs = &self.registrations[x];
                 let mut req_rx =
@@ -412,7 +413,7 @@ impl Compressor {
                             x
                         )))?;
                 let shutdown = &self.shutdown;
-                s.spawn(move || {
+                handles.push(s.spawn(move || {
                     let mut encoders = vec![];
                     for r in regs.iter() {
                         let f = std::fs::OpenOptions::new()
@@ -440,6 +441,7 @@ impl Compressor {
                                     "Encoder finish"
                                 );
                                 encoders[encoder_index].do_finish()?;
+                                encoders[encoder_index].get_mut().flush()?;
                             }
                             CompressRequest::Shutdown => {
                                 trace!("Compressor shutdown");
@@ -459,9 +461,18 @@ impl Compressor {
                     for mut enc in encoders {
                         trace!(thread_id = x, "Encoder finish");
                         enc.do_finish()?;
+                        // dropping the BufWriter would swallow a write error
+                        enc.get_mut().flush()?;
                     }
                     Ok::<(), MonorailError>(())
-                });
+                }));
+            }
+            // a log that could not be written completely (no space left, a file size limit)
+            // fails the run instead of being stored truncated behind a success
+            for handle in handles {
+                handle
+                    .join()
+                    .map_err(|_| MonorailError::from("Log compressor thread panicked"))??;
             }
             Ok(())
         })
